@@ -1,7 +1,8 @@
 """C20 — mirroring never affects the primary path.
 
 P: coq/Mirror/Props.v (c20_noninterference[_env|_world], c20_same_as_without_mirrors, c20_client_path_independent,
-   c20_mirrors_independent[_send], c20_valid_cfg_attaches_all,
+   c20_mirrors_independent[_send], c20_mirror_conn_replaced_only_after_failure, c20_mirror_one_continuous_connection,
+   c20_run_channel_view, c20_valid_cfg_attaches_all,
    c20_never_blocks, c20_send_always_completes, c20_mirror_sees_subsequence,
    c20_mirror_only_own_server, c20_attachment, c20_no_partial[_deliver], c20_env_only_removes,
    c20_queue_bounded) over coq/Mirror/Model.v; the channel capacity and the shape facts the
@@ -167,11 +168,18 @@ def gen_program(rng, two_servers, nreq, tag, burst=False, clients=("c1",)):
             out.append(req(c, [Q("SELECT %d %s" % (rng.randint(0, 999), t()))]))
         elif k < 0.52:
             out.append(req(c, [Q("BEGIN %s" % t())], kind="txn"))
-            for _ in range(rng.randint(1, 2)):
-                out.append(req(c, [Q("SELECT %d %s" % (rng.randint(0, 999), t()))], kind="txn"))
+            failing = rng.random() < 0.3
+            for k_ in range(rng.randint(1, 3)):
+                if failing and k_ == 0:
+                    out.append(req(c, [Q("INSERT INTO t VALUES (1) /*mock: error*/ %s" % t())], kind="txn"))   # ReadyForQuery 'E'
+                else:
+                    out.append(req(c, [Q("%s %s" % (rng.choice(["SELECT %d" % rng.randint(0, 999), "INSERT INTO t VALUES (%d)" % rng.randint(0, 99)]), t()))], kind="txn"))
             out.append(req(c, [Q(rng.choice(["COMMIT", "ROLLBACK"]) + " " + t())], kind="txn"))
         elif k < 0.60:
-            out.append(req(c, [Q("SET statement_timeout TO %d %s" % (rng.randint(1, 9) * 1000, t()))], kind="set"))
+            if rng.random() < 0.4:
+                out.append(req(c, [Q("PREPARE pq%d AS SELECT 1 %s" % (n[0], t()))], kind="prepare"))
+            else:
+                out.append(req(c, [Q("SET statement_timeout TO %d %s" % (rng.randint(1, 9) * 1000, t()))], kind="set"))
         elif k < 0.74:
             nm = rng.choice(["", "", "s%d" % rng.randint(1, 3)])
             msgs = [{"t": "P", "name": nm, "sql": "SELECT %d %s" % (rng.randint(0, 999), t())}, {"t": "B", "portal": "", "name": nm}]
@@ -679,6 +687,80 @@ def retarget_scenario():
     return {"backends": [{"name": b} for b in ALL_BACKENDS], "toml": make_toml(before, True), "hex": True, "timing": True, "steps": steps}
 
 
+def continuity_program(tag, two_servers):
+    """everything that leaves a server connection in a state Server::is_unclean() reports, as multi-request sequences"""
+    n = [0]
+
+    def t():
+        n[0] += 1
+        return "/*%s_%d*/" % (tag, n[0])
+    c = "c1"
+
+    def block():
+        return [
+            req(c, [Q("BEGIN %s" % t())], kind="txn"), req(c, [Q("INSERT INTO accounts VALUES (1, 100) %s" % t())], kind="txn"),
+            req(c, [Q("SELECT 1 %s" % t())], kind="txn"), req(c, [Q("COMMIT %s" % t())], kind="txn"),
+            req(c, [Q("SELECT 2 %s" % t())]),
+            req(c, [Q("BEGIN %s" % t())], kind="txn"), req(c, [Q("INSERT INTO accounts VALUES (2, 1) /*mock: error*/ %s" % t())], kind="txn"),
+            req(c, [Q("SELECT 3 %s" % t())], kind="txn"), req(c, [Q("ROLLBACK %s" % t())], kind="txn"),
+            req(c, [Q("SET statement_timeout TO 5000 %s" % t())], kind="set"), req(c, [Q("SELECT 4 %s" % t())]),
+            req(c, [Q("PREPARE px%d AS SELECT 1 %s" % (n[0], t()))], kind="prepare"), req(c, [Q("SELECT 5 %s" % t())]),
+            req(c, [Q("COPY t FROM STDIN %s" % t())], until="GZ", kind="copy"),
+            req(c, [{"t": "d", "data": "row1\n"}, {"t": "d", "data": "row2\n"}, {"t": "c"}], until="Z", kind="copy"),
+            req(c, [Q("COPY t TO STDOUT /*mock: rows=3*/ %s" % t())], kind="copyout"),
+            req(c, [Q("SELECT 1 /*mock: rows=40, size=400*/ %s" % t())], kind="bigreply"),
+            req(c, [Q("BEGIN %s" % t())], kind="txn"),
+            req(c, [{"t": "P", "name": "", "sql": "UPDATE accounts SET balance = 1 %s" % t()}, {"t": "B", "portal": "", "name": ""}, {"t": "E", "portal": ""}, {"t": "S"}], until="Z", kind="ext"),
+            req(c, [Q("COMMIT %s" % t())], kind="txn"),
+            req(c, [Q("SELECT 6 %s" % t())]),
+        ]
+    prog = block()
+    if two_servers:
+        prog += [req(c, [Q("SET SERVER ROLE TO 'replica'")], kind="role")] + block() + [req(c, [Q("SET SERVER ROLE TO 'primary'")], kind="role"), req(c, [Q("SELECT 7 %s" % t())])]
+    return prog
+
+
+def sql_of(raw):
+    b = bytes.fromhex(raw)
+    return (chr(b[0]) + ":" + b[5:45].split(b"\0")[0].decode("latin1")) if b[:1] in (b"Q", b"P") else chr(b[0])
+
+
+def continuity(cfg, res_m, skip=()):
+    """model-free: while nothing fails a mirror has ONE connection per connection of the server it mirrors, it is never
+    sent a Terminate while that server connection lives, and each mirror connection carries the statements of exactly one
+    server connection.  -> (problems, stats)"""
+    name, servers, mirrors, pool_size = cfg[:4]
+    probs, st = [], {"mirror_connections": 0, "server_connections_mirrored": 0, "terminates_seen_by_mirrors": 0, "statements_per_mirror_connection": []}
+    for pos, (mb, tgt) in enumerate(mirrors):
+        if pos in skip or tgt >= len(servers):
+            continue
+        tb = servers[tgt][0]
+        pd, porder = conn_frames(res_m, tb)
+        md, morder = conn_frames(res_m, mb)
+        pclosed = len([e for e in res_m["events"] if e.get("who") == tb and e.get("ev") == "close"])
+        xs = sum(1 for mc in morder for tg, _ in md[mc] if tg == "X")
+        mclosed = len([e for e in res_m["events"] if e.get("who") == mb and e.get("ev") == "close"])
+        st["mirror_connections"] += len(morder)
+        st["server_connections_mirrored"] += len(porder)
+        st["terminates_seen_by_mirrors"] += xs
+        st["statements_per_mirror_connection"] += [len([f for f in md[mc] if f[0] != "X"]) for mc in morder]
+        hist = "; ".join("%s conn %d: [%s]" % (mb, mc, ", ".join(sql_of(r) for _, r in md[mc])[:400]) for mc in morder)
+        if len(morder) != len(porder):
+            probs.append("mirror %s was connected to %d times for %d connection(s) of %s although nothing failed: %s" % (mb, len(morder), len(porder), tb, hist))
+        elif max(xs, mclosed) > pclosed:
+            probs.append("mirror %s received %d Terminate / %d of its connections ended while only %d connection(s) of %s ended: %s" % (mb, xs, mclosed, pclosed, tb, hist))
+        else:
+            left = [[f for f in pd[pc] if f[0] != "X"] for pc in porder]
+            for mc in morder:
+                fr = [f for f in md[mc] if f[0] != "X"]
+                if fr in left:
+                    left.remove(fr)
+                else:
+                    probs.append("mirror %s conn %d does not carry the statements of exactly one connection of %s: %s" % (mb, mc, tb, hist))
+                    break
+    return probs, st
+
+
 def outage_program(rng, capacity, with_txn):
     n = capacity + rng.randint(2, 6)
     prog = []
@@ -855,6 +937,12 @@ def check(run):
         sched = [(1, "_sleep", 80, 0), (1, "m0", "noread", 0), (len(program), "m0", "normal", 0)]
         cases.append({"kind": "backpressure", "cfg": cfg, "program": program, "sched": sched})
 
+    # healthy mirrors, multi-request sequences that leave the connection in every "unclean" state: the mirror must see them on
+    # ONE continuous connection
+    for i, nm_ in enumerate(["one/m0>0", "one/m0>0,m1>0", "two/m0>0,m1>1", "one/cache/m0>0", "one/plug-g2/m0>0", "two/m0>1,m1>1"] if quick else [c_[0] for c_ in CONFIGS if c_[3] == 1]):
+        cfg = CFG[nm_]
+        cases.append({"kind": "continuity", "cfg": cfg, "program": continuity_program("ct%d" % i, len(cfg[1]) == 2), "sched": [], "app": ("capp%d" % i) if i % 2 == 0 else None})
+
     # every mapping with k >= 2 mirrors on one server: each single mirror stalled in turn, >= 30 requests; every other mirror of
     # that server must still get EVERYTHING (its own channel never fills: it is healthy and fast) -- c20_mirrors_independent
     nst = 0
@@ -898,7 +986,7 @@ def check(run):
             tail = 1500
         if cs["kind"] == "outage":
             tail = 900
-        if cs["kind"] == "stall":
+        if cs["kind"] in ("stall", "continuity"):
             tail = 250
         if cs["kind"] == "backpressure":
             tail = 1500
@@ -921,7 +1009,8 @@ def check(run):
 
     distinct = set()
     unconfirmed = []
-    stats = {"fault": 0, "healthy": 0, "outage": 0, "stall": 0, "backpressure": 0, "bigstmt": 0, "bigstmt_mirror_vs_primary_frames": [], "backpressure_mirror_vs_primary_frames": [], "slow_in_both_runs": [], "mirror_frames": 0, "primary_frames": 0, "mirror_conns": 0, "overflow_runs": 0, "requests": 0,
+    cont_total = {}
+    stats = {"fault": 0, "healthy": 0, "continuity": 0, "outage": 0, "stall": 0, "backpressure": 0, "bigstmt": 0, "bigstmt_mirror_vs_primary_frames": [], "backpressure_mirror_vs_primary_frames": [], "slow_in_both_runs": [], "mirror_frames": 0, "primary_frames": 0, "mirror_conns": 0, "overflow_runs": 0, "requests": 0,
              "by_fault": {}, "by_cfg": {}, "req_kinds": {}, "max_latency_ms_with_mirrors": 0.0, "drops_observed": 0}
     samples = []
     for cs in cases:
@@ -929,7 +1018,14 @@ def check(run):
             cs["failed"] = True     # enough witnesses: do not spend minutes confirming more of the same
             continue
         run.cov["evaluations"] += 1
-        bad = check_pair(cs["cfg"], cs["program"], cs["sched"], cs["res_m"], cs["res_b"])
+        def full_check(rm_, rb_):
+            b_ = check_pair(cs["cfg"], cs["program"], cs["sched"], rm_, rb_)
+            if not (b_ and b_[0][0] == "harness") and cs["kind"] in ("healthy", "continuity", "stall") and not failed(rm_):
+                pr_, st_ = continuity(cs["cfg"], rm_, skip=(cs["stalled"],) if cs["kind"] == "stall" else ())
+                b_ = b_ + [("mirror-continuity", x) for x in pr_]
+                cs["cont_stats"] = st_
+            return b_
+        bad = full_check(cs["res_m"], cs["res_b"])
         if bad and bad[0][0] == "harness":
             run.broken.append("wire harness failed: %s" % bad[0][1])
             cs["failed"] = True
@@ -942,7 +1038,7 @@ def check(run):
             bad = []
             for _ in range(2):
                 r2 = W.run_scenarios(wire, [cs["scn_m"], cs["scn_b"]], timeout=180)
-                b2 = check_pair(cs["cfg"], cs["program"], cs["sched"], r2[0], r2[1])
+                b2 = full_check(r2[0], r2[1])
                 if b2 and b2[0][0] != "harness":
                     bad = b2
                     cs["res_m"], cs["res_b"] = r2
@@ -974,6 +1070,13 @@ def check(run):
                 stats["drops_observed"] += 1
         for b, _ in cs["cfg"][1]:
             stats["primary_frames"] += mc[b]["frames"]
+        if cs.get("cont_stats"):
+            for k_, v_ in cs["cont_stats"].items():
+                if isinstance(v_, list):
+                    cont_total.setdefault(k_, [])
+                    cont_total[k_] = (cont_total[k_] + v_)[:60]
+                else:
+                    cont_total[k_] = cont_total.get(k_, 0) + v_
         if cs["kind"] == "backpressure":
             stats["backpressure_mirror_vs_primary_frames"].append([mc["m0"]["frames"], mc["p0"]["frames"]])
         if cs["kind"] == "bigstmt":
@@ -986,7 +1089,7 @@ def check(run):
                 stats["slow_in_both_runs"].append({"config": cs["cfg"][0], "client": w, "request": l, "kind": kind, "ms_with_mirrors": round(ms), "ms_without": round(lat_b.get((w, l), -1))})
         run.cov["traces_validated_against_impl"] += 1
         for kind, text in bad[:1]:
-            run.violation("counterexample" if kind in ("transcript", "server-bytes", "latency", "mirror-foreign", "mirror-subseq", "mirror-partial", "mirror-truncated", "mirror") else "tie-broken",
+            run.violation("counterexample" if kind in ("transcript", "server-bytes", "latency", "mirror-foreign", "mirror-subseq", "mirror-partial", "mirror-truncated", "mirror-continuity", "mirror") else "tie-broken",
                           "C20 %s: %s [config %s, %s]" % (kind, text, cs["cfg"][0], cs["kind"]),
                           {"input": {"config": cs["cfg"], "program": cs["program"], "schedule": cs["sched"], "kind": cs["kind"]},
                            "monitor": [list(b) for b in bad], "scenario_with_mirrors": cs["scn_m"], "scenario_without": cs["scn_b"]})
@@ -997,9 +1100,9 @@ def check(run):
     if proof_ok and not run.violations:
         exprs, metas = [], []
         for cs in cases:
-            if cs["kind"] not in ("healthy", "outage", "stall") or cs.get("failed") or failed(cs["res_m"]):
+            if cs["kind"] not in ("healthy", "continuity", "outage", "stall") or cs.get("failed") or failed(cs["res_m"]):
                 continue
-            plan, cid_of, seg_list = plan_for(cs["cfg"], cs["res_m"], cs["kind"], capacity, stalled=cs.get("stalled"))
+            plan, cid_of, seg_list = plan_for(cs["cfg"], cs["res_m"], "healthy" if cs["kind"] == "continuity" else cs["kind"], capacity, stalled=cs.get("stalled"))
             exprs.append(model_expr(cs["cfg"], plan))
             metas.append((cs, cid_of, seg_list))
         # attachment function on every configuration, every index
@@ -1019,7 +1122,7 @@ def check(run):
                 if failed(r2):
                     run.broken.append("wire harness failed on a re-run: %s" % str(r2.get("harness_error") or r2.get("start_error"))[:200])
                     continue
-                plan2, cid2, seg2 = plan_for(cs["cfg"], r2, cs["kind"], capacity, stalled=cs.get("stalled"))
+                plan2, cid2, seg2 = plan_for(cs["cfg"], r2, "healthy" if cs["kind"] == "continuity" else cs["kind"], capacity, stalled=cs.get("stalled"))
                 v2 = vlib.coq_eval("c20r", PREAMBLE, [model_expr(cs["cfg"], plan2)])[0]
                 dis2 = compare_model(cs["cfg"], r2, vlib.parse_coq(v2), cid2, seg2, skip=cs.get("stalled"))
                 run.cov["disagreements_checked"] += 1
@@ -1211,6 +1314,7 @@ def check(run):
                        "distinct = distinct (mapping, program, schedule) triples + attachment queries" % (nfault, len(CONFIGS), FAULTS, len(REJECTED_CONFIGS)))
     run.cov["samples"] = samples[:5]
     run.cov["input_distribution"] = stats
+    run.cov["mirror_continuity"] = cont_total
     run.cov["unconfirmed_first_failures"] = unconfirmed[:10]
 
     if not (tr_ok and proof_ok) and not run.violations and not run.broken:
